@@ -25,7 +25,7 @@ RULE = ('case = device tables of 0..12 entries (all types), CRC values incl. 0, 
         'file, offset/garble) evaluated.')
 ASSUMPTIONS = ['a crash during the cache write leaves a prefix of the intended file content',
                'cache files that are valid JSON but semantically wrong are outside the statement']
-REQUIRED = ['mon.cached_connects', 'mon.cache_hits', 'mon.truncation_offsets', 'mon.truncated_connects',
+REQUIRED = ['mon.connects_with_a_parameter_notification_before_the_tables', 'mon.cached_connects', 'mon.cache_hits', 'mon.truncation_offsets', 'mon.truncated_connects',
             'mon.garbled_files', 'mon.crc_collision_cases', 'mon.ro_dir_audited', 'mon.audit_events_seen',
             'mon.files_vanished_before_connect', 'mon.files_with_a_field_missing',
             'mon.crc_collision_with_one_empty_table', 'mon.store_load_round_trips',
@@ -125,8 +125,16 @@ def connect_once(dev_profile, ro, rw, seed, after_construct=None):
         cf.connected.add_callback(on_conn)
         cf.connection_failed.add_callback(lambda u, m: (ob.__setitem__('failed', str(m)[:300]), done.set()))
         cf.open_link(uri)
+        if cf.link is not None and dev.proto >= 4 and dev.params and seed % 2 == 0:
+            # the firmware reports a parameter changed on board: it may do so at any time, also before the tables are there
+            h, d = dev.value_updated_packet(seed % len(dev.params))
+            cf.link.inject(h, d, (0.0, 0.0005, 0.002)[(seed // 2) % 3])
+            ob['early'] = 1
         done.wait(120.0)
         s.sleep(0.3)
+        # every entry of the table in use is found by index and by name
+        if ob['connected'] and cf.param.toc is not None:
+            ob['lookup_issues'] = oracles.lookup_consistency('param', cf.param.toc, oracles.expected_param(dev))[0][:2]
         cf.close_link()
     _audit['on'] = True
     try:
@@ -326,6 +334,11 @@ def run(desc, ctx):
                 return False
             bad = False
             for m, d in oracles.diff_table('log', ob['log'], exp_log) + oracles.diff_table('param', ob['param'], exp_param):
+                V('cache:%s:%s' % (label, m), d)
+                bad = True
+            if ob.get('early'):
+                ctx.count('mon.connects_with_a_parameter_notification_before_the_tables')
+            for m, d in ob.get('lookup_issues', []):
                 V('cache:%s:%s' % (label, m), d)
                 bad = True
             return not bad
